@@ -1,8 +1,1084 @@
-//! stub — to be implemented
-use crate::common::{Ctx, Report};
+//! C16 — Resources return to baseline and admission limits are never exceeded.
+//!
+//! Live-worker lab. Each *case* is one cell (a real sozu worker + scripted backends on a private
+//! loopback address) of one of three kinds:
+//!   * conservation cells: many mixes of session outcomes (one outcome class per mix, or a blend
+//!     that is bisected on failure); fresh baseline before each mix; after the mix every harness
+//!     socket is closed and the end-of-iteration snapshot (hook H3) must return to the baseline;
+//!     `QueryMetrics` gauges must agree with the hook; `gauge_underflow.*` must stay 0; idle and
+//!     stuck sessions must be reclaimed within their timeouts (+ slack);
+//!   * admission cells: `max_connections` in 4..32, storms of 2-5x as many clients whose requests
+//!     the backends park; harness-measured concurrency and the hook's running maximum must stay
+//!     <= max_connections; accepting must resume once load dropped;
+//!   * per-IP cells: `max_connections_per_ip` (global / per-cluster / changed at runtime) with
+//!     clients bound to chosen 127.x.y.z source addresses.
+//! Bounded-time verdicts are re-run once in isolation (all other cells paused) before they count.
 
-pub fn run(_ctx: &Ctx) -> Report {
-    let mut rep = Report::new("exploration", "not implemented");
-    rep.broken("check not implemented yet");
+mod admission;
+mod backend;
+mod client;
+mod h2;
+mod perip;
+
+use std::{
+    collections::BTreeMap,
+    net::Ipv4Addr,
+    sync::{
+        Arc, Mutex, RwLock,
+        atomic::{AtomicUsize, Ordering},
+    },
+    time::{Duration, Instant},
+};
+
+use serde_json::{Value, json};
+use sozu_command_lib::proto::command::{
+    Cluster, QueryMetricsOptions, ResponseContent, ResponseStatus, Status, WorkerMetrics, filtered_metrics::Inner,
+    request::RequestType, response_content::ContentType,
+};
+use sozu_lib::verif::LoopSnapshot;
+
+use crate::{
+    common::{Ctx, Report, Rng, par_cases},
+    lab::{self, Worker, WorkerOpts},
+    peers::{BackendServer, IoProgram, tls},
+};
+
+use backend::BackendCtl;
+use client::{ALL_CLASSES, Class, Conn, Env};
+
+/// `h2_stream_idle_timeout_seconds` of every lab listener
+const H2_STREAM_IDLE_S: u32 = 2;
+const S_CELL: u64 = 0xC16_0001;
+const S_MIX: u64 = 0xC16_0002;
+const S_SESSION: u64 = 0xC16_0003;
+
+/// Isolation gate: ordinary mixes hold a read guard; an isolated re-run holds the write guard.
+static GATE: RwLock<()> = RwLock::new(());
+
+/// a bounded-time miss that has to be reproduced in isolation before it counts
+#[derive(Clone, Debug)]
+pub struct Candidate {
+    pub signature: String,
+    pub what: String,
+    pub witness: Value,
+}
+
+#[derive(Clone, Debug)]
+pub struct CellCfg {
+    pub kind: &'static str,
+    pub max_connections: u64,
+    pub max_buffers: u64,
+    pub front_timeout: u32,
+    pub back_timeout: u32,
+    pub request_timeout: u32,
+    pub connect_timeout: u32,
+    pub accept_queue_timeout: u32,
+    pub evict: bool,
+    pub per_ip: u64,
+    pub cluster_a_per_ip: Option<u64>,
+    pub tcp_per_ip: Option<u64>,
+    pub front_sndbuf: Option<i64>,
+}
+
+impl CellCfg {
+    fn json(&self) -> Value {
+        json!({"kind": self.kind, "max_connections": self.max_connections, "max_buffers": self.max_buffers,
+            "front_timeout": self.front_timeout, "back_timeout": self.back_timeout, "request_timeout": self.request_timeout,
+            "connect_timeout": self.connect_timeout, "accept_queue_timeout": self.accept_queue_timeout,
+            "evict_on_queue_full": self.evict, "max_connections_per_ip": self.per_ip,
+            "cluster_a_max_connections_per_ip": self.cluster_a_per_ip, "tcp_cluster_max_connections_per_ip": self.tcp_per_ip,
+            "front_sndbuf": self.front_sndbuf})
+    }
+    /// sum of the timeouts that can chain on one idle / stuck session, in ms
+    fn timeout_sum_ms(&self) -> u64 {
+        (self.front_timeout + self.back_timeout + self.request_timeout + self.connect_timeout + H2_STREAM_IDLE_S) as u64 * 1000
+    }
+}
+
+pub struct Cell {
+    pub cfg: CellCfg,
+    pub ip: Ipv4Addr,
+    pub w: Worker,
+    pub env: Arc<Env>,
+    pub ctl: Arc<BackendCtl>,
+    backends: Vec<BackendServer>,
+    underflow_seen: BTreeMap<String, u64>,
+}
+
+/// the part of a snapshot the conservation oracle looks at
+#[derive(Clone, Debug, PartialEq, Eq)]
+pub struct Foot {
+    pub nb_connections: usize,
+    pub slab_len: usize,
+    pub pool_used: usize,
+    pub accept_queue_len: usize,
+    pub per_ip_entries: usize,
+    pub per_ip_total: usize,
+    pub per_ip_tracks: usize,
+    pub backend_active_connections: usize,
+    pub backend_active_requests: usize,
+}
+
+pub fn foot(s: &LoopSnapshot) -> Foot {
+    Foot {
+        nb_connections: s.nb_connections,
+        slab_len: s.slab_len,
+        pool_used: s.pool_used,
+        accept_queue_len: s.accept_queue_len,
+        per_ip_entries: s.per_cluster_ip_entries,
+        per_ip_total: s.per_cluster_ip_total,
+        per_ip_tracks: s.cluster_ip_tracks,
+        backend_active_connections: s.backends.iter().map(|b| b.active_connections).sum(),
+        backend_active_requests: s.backends.iter().map(|b| b.active_requests).sum(),
+    }
+}
+
+impl Foot {
+    fn json(&self) -> Value {
+        json!({"nb_connections": self.nb_connections, "slab_len": self.slab_len, "pool_used": self.pool_used,
+            "accept_queue_len": self.accept_queue_len, "per_ip_entries": self.per_ip_entries, "per_ip_total": self.per_ip_total,
+            "per_ip_tracks": self.per_ip_tracks, "backend_active_connections": self.backend_active_connections,
+            "backend_active_requests": self.backend_active_requests})
+    }
+    /// (field, expected, observed) for every field off its value in the baseline taken before the
+    /// mix (on a fresh worker the baseline is the idle value: 0 sessions, 0 slots, 0 backend counts)
+    pub fn deviations(&self, base: &Foot) -> Vec<(&'static str, usize, usize)> {
+        let mut d = Vec::new();
+        let mut chk = |name, exp: usize, obs: usize| {
+            if exp != obs {
+                d.push((name, exp, obs));
+            }
+        };
+        chk("nb_connections", base.nb_connections, self.nb_connections);
+        chk("slab_len", base.slab_len, self.slab_len);
+        chk("pool_used", base.pool_used, self.pool_used);
+        chk("accept_queue_len", base.accept_queue_len, self.accept_queue_len);
+        chk("per_ip_entries", base.per_ip_entries, self.per_ip_entries);
+        chk("per_ip_total", base.per_ip_total, self.per_ip_total);
+        chk("per_ip_tracks", base.per_ip_tracks, self.per_ip_tracks);
+        chk("backend_active_connections", base.backend_active_connections, self.backend_active_connections);
+        chk("backend_active_requests", base.backend_active_requests, self.backend_active_requests);
+        d
+    }
+    /// no session object is left: what still deviates can never be repaired by a timer
+    pub fn sessions_gone(&self, base: &Foot) -> bool {
+        self.nb_connections == base.nb_connections && self.slab_len == base.slab_len && self.accept_queue_len == base.accept_queue_len && self.pool_used == base.pool_used
+    }
+}
+
+pub enum Settle {
+    Clean(LoopSnapshot, u64),
+    /// clean only after the grace period (ms)
+    Late(LoopSnapshot, u64),
+    Dirty(LoopSnapshot),
+    WorkerGone,
+}
+
+impl Cell {
+    pub fn start(cfg: CellCfg) -> Result<Cell, String> {
+        let ip = lab::fresh_ip();
+        let front = lab::sa(ip, 8080);
+        let front_tls = lab::sa(ip, 8443);
+        let front_tcp = lab::sa(ip, 8090);
+        let front_tcp_dead = lab::sa(ip, 8091);
+        let back_a = lab::sa(ip, 9000);
+        let back_b = lab::sa(ip, 9001);
+        let back_dead = lab::sa(ip, 9009);
+        let back_tcp = lab::sa(ip, 9100);
+        let ctl = Arc::new(BackendCtl::default());
+        let mut backends = Vec::new();
+        for addr in [back_a, back_b] {
+            let c = ctl.clone();
+            backends.push(BackendServer::start(addr, IoProgram::fast(), move |s, _| backend::h1_handler(&c, s)).map_err(|e| format!("backend {addr}: {e}"))?);
+        }
+        let c = ctl.clone();
+        backends.push(BackendServer::start(back_tcp, IoProgram::fast(), move |s, _| backend::tcp_handler(&c, s)).map_err(|e| format!("backend {back_tcp}: {e}"))?);
+
+        let mut opts = WorkerOpts {
+            max_connections: cfg.max_connections,
+            max_buffers: cfg.max_buffers,
+            front_timeout: cfg.front_timeout,
+            back_timeout: cfg.back_timeout,
+            connect_timeout: cfg.connect_timeout,
+            request_timeout: cfg.request_timeout,
+            accept_queue_timeout: cfg.accept_queue_timeout,
+            evict_on_queue_full: cfg.evict,
+            max_connections_per_ip: cfg.per_ip,
+            ..WorkerOpts::default()
+        };
+        if let Some(v) = cfg.front_sndbuf {
+            opts.knobs.push(("front_sndbuf".into(), v));
+        }
+        let mut w = Worker::start(opts);
+        let (ft, bt, ct, rt) = (cfg.front_timeout, cfg.back_timeout, cfg.connect_timeout, cfg.request_timeout);
+        let tweak = move |b: &mut sozu_command_lib::config::ListenerBuilder| {
+            b.front_timeout = Some(ft);
+            b.back_timeout = Some(bt);
+            b.connect_timeout = Some(ct);
+            b.request_timeout = Some(rt);
+            // documented default is max(30, back_timeout): an H2 stream whose client vanished may
+            // legitimately live that long, so the labs configure it like the other timeouts
+            b.h2_stream_idle_timeout_seconds = Some(H2_STREAM_IDLE_S);
+        };
+        let cluster = |id: &str, per_ip: Option<u64>| Cluster { cluster_id: id.into(), max_connections_per_ip: per_ip, ..Default::default() };
+        let cert = std::fs::read_to_string("/repo/lib/assets/certificate.pem").unwrap_or_default();
+        let key = std::fs::read_to_string("/repo/lib/assets/key.pem").unwrap_or_default();
+        let ok = w.add_http_listener(front, tweak)
+            && w.add_https_listener(front_tls, tweak)
+            && w.add_tcp_listener(front_tcp, tweak)
+            && w.add_tcp_listener(front_tcp_dead, tweak)
+            && w.add_cluster(cluster("a", cfg.cluster_a_per_ip))
+            && w.add_cluster(cluster("b", None))
+            && w.add_cluster(cluster("refuse", None))
+            && w.add_cluster(cluster("tcp", cfg.tcp_per_ip))
+            && w.add_cluster(cluster("tcpdead", None))
+            && w.add_http_frontend(Worker::http_frontend("a", front, "a.test", "/"))
+            && w.add_http_frontend(Worker::http_frontend("b", front, "b.test", "/"))
+            && w.add_http_frontend(Worker::http_frontend("refuse", front, "refuse.test", "/"))
+            && w.add_certificate(front_tls, &cert, vec![], &key, vec!["a.test".into(), "b.test".into(), "refuse.test".into()])
+            && w.add_https_frontend(Worker::http_frontend("a", front_tls, "a.test", "/"))
+            && w.add_https_frontend(Worker::http_frontend("b", front_tls, "b.test", "/"))
+            && w.add_https_frontend(Worker::http_frontend("refuse", front_tls, "refuse.test", "/"))
+            && w.add_tcp_frontend("tcp", front_tcp)
+            && w.add_tcp_frontend("tcpdead", front_tcp_dead)
+            && w.add_backend("a", "a0", back_a)
+            && w.add_backend("b", "b0", back_b)
+            && w.add_backend("refuse", "r0", back_dead)
+            && w.add_backend("tcp", "t0", back_tcp)
+            && w.add_backend("tcpdead", "d0", back_dead);
+        if !ok {
+            let _ = w.stop();
+            return Err("worker configuration was not accepted".into());
+        }
+        let env = Arc::new(Env {
+            front,
+            front_tls,
+            front_tcp,
+            front_tcp_dead,
+            tls_h1: tls::client_config(&["http/1.1"]),
+            tls_bad_alpn: tls::client_config(&["spdy/9"]),
+            tls_h2: tls::client_config(&["h2"]),
+            reclaim_bound_ms: cfg.timeout_sum_ms() + 2500,
+        });
+        Ok(Cell { cfg, ip, w, env, ctl, backends, underflow_seen: BTreeMap::new() })
+    }
+
+    /// one Status round trip: wakes the event loop (a new snapshot follows)
+    pub fn ping(&mut self) -> bool {
+        matches!(self.w.call(RequestType::Status(Status {}), Duration::from_secs(3)), Ok(r) if r.status == ResponseStatus::Ok as i32)
+    }
+
+    /// a snapshot published by an iteration that ended after this call started
+    pub fn fresh_snapshot(&mut self) -> Option<LoopSnapshot> {
+        let it = self.w.probe.snapshot().iteration;
+        if !self.ping() || !self.ping() {
+            return None;
+        }
+        let start = Instant::now();
+        loop {
+            let s = self.w.probe.snapshot();
+            if s.iteration > it + 1 {
+                return Some(s);
+            }
+            if start.elapsed() > Duration::from_millis(50) {
+                if !self.ping() {
+                    return None;
+                }
+            }
+            if start.elapsed() > Duration::from_secs(4) {
+                return None;
+            }
+            std::thread::sleep(Duration::from_millis(1));
+        }
+    }
+
+    /// idle footprint before traffic (must be stable and free of sessions)
+    pub fn baseline(&mut self) -> Option<Foot> {
+        let start = Instant::now();
+        let mut last: Option<Foot> = None;
+        let mut same = 0;
+        while start.elapsed() < Duration::from_secs(6) {
+            let f = foot(&self.fresh_snapshot()?);
+            if last.as_ref() == Some(&f) {
+                same += 1;
+                if same >= 2 {
+                    return Some(f);
+                }
+            } else {
+                same = 0;
+            }
+            last = Some(f);
+            std::thread::sleep(Duration::from_millis(3));
+        }
+        None
+    }
+
+    /// wait for the footprint to be back at the baseline: 3 consecutive clean fresh snapshots.
+    /// `grace` bounds the normal wait; a dirty footprint is watched for another 5 s to tell a late
+    /// reclaim from a leak.
+    pub fn settle(&mut self, base: &Foot, grace: Duration) -> Settle {
+        let start = Instant::now();
+        let hard = grace + Duration::from_secs(5);
+        let mut clean = 0;
+        let mut gone_same = 0;
+        let mut last = self.w.probe.snapshot();
+        loop {
+            match self.fresh_snapshot() {
+                Some(s) => {
+                    if foot(&s).deviations(base).is_empty() {
+                        clean += 1;
+                        if clean >= 3 {
+                            let el = start.elapsed();
+                            return if el <= grace + Duration::from_millis(300) { Settle::Clean(s, el.as_millis() as u64) } else { Settle::Late(s, el.as_millis() as u64) };
+                        }
+                    } else {
+                        clean = 0;
+                        if foot(&s).sessions_gone(base) && foot(&s) == foot(&last) {
+                            gone_same += 1;
+                            if gone_same >= 4 && start.elapsed() > Duration::from_millis(400) {
+                                return Settle::Dirty(s);
+                            }
+                        } else {
+                            gone_same = 0;
+                        }
+                    }
+                    last = s;
+                }
+                None => {
+                    if !self.w.is_running() {
+                        return Settle::WorkerGone;
+                    }
+                }
+            }
+            if start.elapsed() > hard {
+                if let Some(extra) = std::env::var("VH_C16_LINGER").ok().and_then(|v| v.parse::<u64>().ok()) {
+                    // debugging aid: how long does the dirty footprint survive?
+                    let t = Instant::now();
+                    while t.elapsed() < Duration::from_secs(extra) {
+                        if let Some(s) = self.fresh_snapshot() {
+                            if foot(&s).deviations(base).is_empty() {
+                                eprintln!("dirty footprint healed after {} ms", start.elapsed().as_millis());
+                                break;
+                            }
+                        }
+                        std::thread::sleep(Duration::from_millis(100));
+                    }
+                    eprintln!("lingered {} ms: {:?}", start.elapsed().as_millis(), foot(&self.w.probe.snapshot()));
+                }
+                return Settle::Dirty(last);
+            }
+            std::thread::sleep(Duration::from_millis(if start.elapsed() < Duration::from_millis(300) { 2 } else { 15 }));
+        }
+    }
+
+    pub fn query_metrics(&mut self) -> Option<WorkerMetrics> {
+        let r = self
+            .w
+            .call(
+                RequestType::QueryMetrics(QueryMetricsOptions {
+                    list: false,
+                    cluster_ids: vec![],
+                    backend_ids: vec![],
+                    metric_names: vec![],
+                    no_clusters: false,
+                    workers: false,
+                }),
+                Duration::from_secs(3),
+            )
+            .ok()?;
+        match r.content {
+            Some(ResponseContent { content_type: Some(ContentType::WorkerMetrics(m)) }) => Some(m),
+            _ => None,
+        }
+    }
+
+    /// new gauge underflows since the last call: (key, count)
+    pub fn new_underflows(&mut self) -> Vec<(String, u64)> {
+        let mut v = Vec::new();
+        for (k, n) in self.w.probe.counters() {
+            if let Some(key) = k.strip_prefix("gauge_underflow.") {
+                let seen = self.underflow_seen.get(key).copied().unwrap_or(0);
+                if n > seen {
+                    v.push((key.to_owned(), n - seen));
+                    self.underflow_seen.insert(key.to_owned(), n);
+                }
+            }
+        }
+        v
+    }
+
+    /// end of a mix on the harness side: backends drop what they still hold
+    pub fn close_backend_side(&mut self) -> bool {
+        self.ctl.next_epoch();
+        self.ctl.wait_idle(Duration::from_secs(3))
+    }
+
+    pub fn stop(mut self) -> Vec<crate::common::PanicRec> {
+        self.ctl.next_epoch();
+        for b in self.backends.iter_mut() {
+            b.stop();
+        }
+        let p = self.w.stop();
+        self.ctl.wait_idle(Duration::from_secs(2));
+        p
+    }
+}
+
+pub fn gauge(m: &BTreeMap<String, sozu_command_lib::proto::command::FilteredMetrics>, key: &str) -> Option<u64> {
+    match m.get(key)?.inner.as_ref()? {
+        Inner::Gauge(v) => Some(*v),
+        _ => None,
+    }
+}
+
+pub fn count(m: &BTreeMap<String, sozu_command_lib::proto::command::FilteredMetrics>, key: &str) -> Option<i64> {
+    match m.get(key)?.inner.as_ref()? {
+        Inner::Count(v) => Some(*v),
+        _ => None,
+    }
+}
+
+/// The operator's view against the hook at a quiescent point. Gauges that were never emitted are
+/// absent (exempt). Returns (gauge, hook value, metric value) for each disagreement.
+fn compare_metrics(m: &WorkerMetrics, s: &LoopSnapshot, base: &Foot, rep: &mut Report) -> Vec<(String, u64, u64)> {
+    let mut bad = Vec::new();
+    let f = foot(s);
+    // a counter that an earlier mix of this cell already left off its idle value was reported then
+    let drifted = base.backend_active_connections != 0;
+    let pairs: [(&str, u64); 5] = [
+        ("client.connections", f.nb_connections as u64),
+        ("slab.entries", f.slab_len as u64),
+        ("buffer.in_use", f.pool_used as u64),
+        ("accept_queue.connections", f.accept_queue_len as u64),
+        ("backend.connections", f.backend_active_connections as u64),
+    ];
+    for (key, hook) in pairs {
+        if (key == "backend.connections" && drifted) || (key == "client.connections" && base.nb_connections != 0) {
+            rep.obs("metrics_compare_skipped_after_earlier_leak", 1);
+            continue;
+        }
+        match gauge(&m.proxy, key) {
+            Some(v) => {
+                rep.obs("metrics_gauges_compared", 1);
+                if v != hook {
+                    bad.push((key.to_owned(), hook, v));
+                }
+            }
+            None => rep.obs("metrics_gauge_absent_exempt", 1),
+        }
+    }
+    for (cid, cm) in &m.clusters {
+        if drifted {
+            break;
+        }
+        let hook: u64 = s.backends.iter().filter(|b| &b.cluster_id == cid).map(|b| b.active_connections as u64).sum();
+        let mut total = gauge(&cm.cluster, "connections_per_backend");
+        for b in &cm.backends {
+            if let Some(v) = gauge(&b.metrics, "connections_per_backend") {
+                total = Some(total.unwrap_or(0) + v);
+            }
+        }
+        if let Some(v) = total {
+            rep.obs("metrics_gauges_compared", 1);
+            if v != hook {
+                bad.push(("connections_per_backend".to_owned(), hook, v));
+            }
+        }
+    }
+    // lifecycle gauges outside the statement: reported, not judged
+    for key in ["http.active_requests", "websocket.active_requests", "protocol.http", "protocol.https", "protocol.tls.handshake", "protocol.tcp", "protocol.ws", "protocol.wss", "backend.pool.size"] {
+        if let Some(v) = gauge(&m.proxy, key) {
+            if v != 0 {
+                rep.obs(&format!("unjudged_gauge_nonzero_at_quiescence:{key}"), 1);
+                rep.obs_max(&format!("unjudged_gauge_value:{key}"), v);
+            }
+        }
+    }
+    bad
+}
+
+// ---- mixes ------------------------------------------------------------------------------------
+
+#[derive(Clone, Debug)]
+pub struct MixPlan {
+    pub parts: Vec<(Class, bool)>,
+    pub sessions: usize,
+    pub par: usize,
+}
+
+impl MixPlan {
+    fn class_name(&self) -> String {
+        if self.parts.len() == 1 { self.parts[0].0.name(self.parts[0].1) } else { "mixed".to_owned() }
+    }
+    fn json(&self) -> Value {
+        json!({"classes": self.parts.iter().map(|(c, t)| c.name(*t)).collect::<Vec<_>>(), "sessions": self.sessions, "parallel": self.par})
+    }
+    fn has_timeout(&self) -> bool {
+        self.parts.iter().any(|(c, _)| c.is_timeout())
+    }
+}
+
+fn gen_plan(rng: &mut Rng, only: Option<&str>, quick: bool) -> MixPlan {
+    let pick_part = |rng: &mut Rng| {
+        let c = *rng.pick(ALL_CLASSES);
+        (c, c.tls_capable() && rng.chance(1, 3))
+    };
+    let mut parts = Vec::new();
+    if let Some(name) = only {
+        for c in ALL_CLASSES {
+            for t in [false, true] {
+                if c.name(t) == name && (!t || c.tls_capable()) {
+                    parts.push((*c, t));
+                }
+            }
+        }
+    }
+    if parts.is_empty() {
+        if rng.chance(1, 8) {
+            for _ in 0..rng.urange(3, 5) {
+                parts.push(pick_part(rng));
+            }
+        } else {
+            parts.push(pick_part(rng));
+        }
+    }
+    let timeout = parts.iter().any(|(c, _)| c.is_timeout());
+    let slow = parts.iter().any(|(c, _)| matches!(c, Class::H2Goaway | Class::TcpRefused | Class::BackendStallAbort | Class::H1AbortMidResponse | Class::BackendCloseMid | Class::BackendRstMid));
+    let (sessions, par) = if timeout {
+        let n = rng.urange(6, 14);
+        (n, n)
+    } else if slow {
+        {
+            let n = rng.urange(12, 28);
+            (n, n)
+        }
+    } else {
+        (rng.urange(30, if quick { 90 } else { 160 }), rng.urange(4, 12))
+    };
+    MixPlan { parts, sessions, par }
+}
+
+pub struct MixStats {
+    pub tags: BTreeMap<(String, &'static str), u64>,
+    pub kept: Vec<Conn>,
+    pub reclaim_max_ms: u64,
+    pub reclaim_missed: Vec<(String, &'static str)>,
+    pub wall_ms: u64,
+}
+
+fn run_mix(env: &Arc<Env>, plan: &MixPlan, seed: u64, mix_id: u64) -> MixStats {
+    let next = AtomicUsize::new(0);
+    let acc = Mutex::new(MixStats { tags: BTreeMap::new(), kept: Vec::new(), reclaim_max_ms: 0, reclaim_missed: Vec::new(), wall_ms: 0 });
+    let start = Instant::now();
+    std::thread::scope(|sc| {
+        for _ in 0..plan.par.max(1) {
+            sc.spawn(|| {
+                loop {
+                    let i = next.fetch_add(1, Ordering::SeqCst);
+                    if i >= plan.sessions {
+                        break;
+                    }
+                    let mut rng = Rng::for_case(seed, S_SESSION ^ mix_id.wrapping_mul(0x9E37), i as u64);
+                    let (class, tls_on) = plan.parts[rng.usize_below(plan.parts.len())];
+                    let t_s = Instant::now();
+                    let o = client::run_session(env, class, tls_on, &mut rng);
+                    if std::env::var_os("VH_C16_TRACE").is_some() {
+                        eprintln!("session {i} {} -> {} in {} ms", class.name(tls_on), o.tag, t_s.elapsed().as_millis());
+                    }
+                    let mut a = acc.lock().unwrap();
+                    *a.tags.entry((class.name(tls_on), o.tag)).or_insert(0) += 1;
+                    if let Some(ms) = o.reclaim_ms {
+                        a.reclaim_max_ms = a.reclaim_max_ms.max(ms);
+                        if matches!(o.tag, "no_response_in_time" | "answered_but_not_closed_in_time") {
+                            a.reclaim_missed.push((class.name(tls_on), o.tag));
+                        }
+                    }
+                    if let Some(c) = o.keep {
+                        a.kept.push(c);
+                    }
+                }
+            });
+        }
+    });
+    let mut s = acc.into_inner().unwrap();
+    s.wall_ms = start.elapsed().as_millis() as u64;
+    s
+}
+
+pub struct CaseCtx<'a> {
+    pub ctx: &'a Ctx,
+    pub case: u64,
+    pub isolated: bool,
+    pub candidates: Vec<Candidate>,
+    /// mix / storm index that produced each candidate
+    pub cand_units: Vec<u64>,
+    /// isolated re-run: only these mixes / storms
+    pub only_units: Option<Vec<u64>>,
+}
+
+impl CaseCtx<'_> {
+    pub fn skip_unit(&self, unit: u64) -> bool {
+        self.only_units.as_ref().is_some_and(|u| !u.contains(&unit))
+    }
+    /// attribute the candidates pushed since the last call to `unit`
+    pub fn close_unit(&mut self, unit: u64) {
+        while self.cand_units.len() < self.candidates.len() {
+            self.cand_units.push(unit);
+        }
+    }
+
+    pub fn witness(&self, cell: &Cell, extra: Value) -> Value {
+        json!({"case": self.case, "seed": self.ctx.seed, "cell": cell.cfg.json(), "cell_ip": cell.ip.to_string(),
+            "isolated_rerun": self.isolated, "detail": extra})
+    }
+}
+
+/// Oracle A on one finished mix (all client sockets already closed). Returns false when the cell
+/// must not be reused (violation, or worker gone).
+pub fn check_conservation(cc: &mut CaseCtx, cell: &mut Cell, base: &Foot, class: &str, detail: Value, rep: &mut Report) -> (bool, bool) {
+    if !cell.close_backend_side() {
+        rep.obs("backend_handlers_still_running_after_mix", 1);
+    }
+    let grace = Duration::from_millis(cell.cfg.timeout_sum_ms() + 2500);
+    rep.obs("conservation_checks", 1);
+    let mut reusable = true;
+    let mut violated = false;
+    match cell.settle(base, grace) {
+        Settle::Clean(s, ms) => {
+            rep.obs("conservation_clean", 1);
+            rep.obs_max("settle_ms", ms);
+            // operator view
+            if let Some(m) = cell.query_metrics() {
+                if let Some(s2) = cell.fresh_snapshot() {
+                    if foot(&s2) == foot(&s) {
+                        rep.obs("metrics_comparisons", 1);
+                        for (g, hook, metric) in compare_metrics(&m, &s2, base, rep) {
+                            rep.violation(
+                                &format!("resources/metrics_mismatch/{g}/{class}"),
+                                &format!("at quiescence QueryMetrics reports {g}={metric} while the worker's bookkeeping says {hook}"),
+                                cc.witness(cell, json!({"mix": detail, "gauge": g, "hook": hook, "metric": metric, "footprint": foot(&s2).json()})),
+                            );
+                            violated = true;
+                        }
+                    } else {
+                        rep.obs("metrics_compare_skipped_unstable", 1);
+                    }
+                }
+            } else {
+                rep.obs("metrics_query_failed", 1);
+            }
+        }
+        Settle::Late(_, ms) => {
+            rep.obs("conservation_late", 1);
+            cc.candidates.push(Candidate {
+                signature: format!("resources/late_reclaim/{class}"),
+                what: format!("footprint returned to baseline only after {ms} ms, past every timeout + slack ({} ms), with all peers gone", grace.as_millis()),
+                witness: cc.witness(cell, json!({"mix": detail, "settle_ms": ms, "grace_ms": grace.as_millis() as u64})),
+            });
+        }
+        Settle::Dirty(s) => {
+            let f = foot(&s);
+            if !f.sessions_gone(base) {
+                reusable = false;
+            }
+            violated = true;
+            for (field, exp, obs) in f.deviations(base) {
+                // below the value before the mix: something was released that this mix never took
+                // (only visible when an earlier leak left the counter above its floor of 0)
+                let signature = if obs > exp { format!("resources/leak/{field}/{class}") } else { format!("resources/over_release/{field}") };
+                rep.violation(
+                    &signature,
+                    &format!("{field} = {obs} (value before the mix: {exp}) after every peer socket was closed and no session is left that a timeout could still end, or every timeout + 7.5 s elapsed"),
+                    cc.witness(cell, json!({"mix": detail, "class": class, "field": field, "expected": exp, "observed": obs,
+                        "baseline": base.json(), "footprint": f.json(), "waited_ms_at_most": (grace + Duration::from_secs(5)).as_millis() as u64,
+                        "backends": s.backends.iter().map(|b| json!({"cluster": b.cluster_id, "backend": b.backend_id,
+                            "active_connections": b.active_connections, "active_requests": b.active_requests})).collect::<Vec<_>>()})),
+                );
+            }
+        }
+        Settle::WorkerGone => {
+            rep.obs("worker_gone_during_settle", 1);
+            reusable = false;
+        }
+    }
+    for (key, n) in cell.new_underflows() {
+        rep.violation(
+            &format!("resources/gauge_underflow/{key}{}", if cell.cfg.max_buffers < 100 { "/pool_exhausted" } else { "" }),
+            &format!("gauge {key} was decremented below zero {n} time(s) (clamped by the local drain)"),
+            cc.witness(cell, json!({"mix": detail, "class": class, "gauge": key, "underflows": n})),
+        );
+        violated = true;
+    }
+    (reusable, violated)
+}
+
+/// (E) and the sozu-side I/O evidence, at the end of every cell
+pub fn finish_cell(cc: &mut CaseCtx, cell: Cell, rep: &mut Report) {
+    let counters = cell.w.probe.counters();
+    let mut wb = 0;
+    let mut partial = 0;
+    for (k, v) in &counters {
+        if k.starts_with("io.") && k.ends_with(".wouldblock") {
+            wb += v;
+        }
+        if k.starts_with("io.") && k.ends_with(".partial") {
+            partial += v;
+        }
+        if k.starts_with("io.") && k.ends_with("write.wouldblock") || k.ends_with("writev.wouldblock") {
+            rep.obs("sozu_write_wouldblock", *v);
+        }
+    }
+    rep.obs("sozu_wouldblock", wb);
+    rep.obs("sozu_partial_io", partial);
+    rep.obs("backend_handlers_forced_exit", cell.ctl.forced_exits.load(Ordering::SeqCst));
+    rep.obs("backend_requests_seen", cell.ctl.requests.load(Ordering::SeqCst));
+    let over = cell.w.probe.over_limit_iterations.load(Ordering::SeqCst);
+    let maxnb = cell.w.probe.max_nb_connections.load(Ordering::SeqCst);
+    let cfgj = cell.cfg.json();
+    let maxc = cell.cfg.max_connections;
+    let running = cell.w.is_running();
+    let panics = cell.stop();
+    rep.obs("cells_finished", 1);
+    if over > 0 || maxnb > maxc {
+        rep.violation(
+            "admission/nb_connections_over_max",
+            &format!("nb_connections exceeded max_connections={maxc}: running max {maxnb}, {over} iteration(s) over the limit"),
+            json!({"case": cc.case, "seed": cc.ctx.seed, "cell": cfgj, "max_nb_connections": maxnb, "over_limit_iterations": over}),
+        );
+    }
+    for p in &panics {
+        if p.in_sozu() {
+            rep.violation(
+                &p.signature(),
+                &format!("worker thread panicked: {} at {}", p.message, p.location),
+                json!({"case": cc.case, "seed": cc.ctx.seed, "cell": cfgj, "panic": p.message, "location": p.location}),
+            );
+        } else {
+            rep.broken(&format!("harness-side panic in worker thread: {} at {}", p.message, p.location));
+        }
+    }
+    if !running && panics.is_empty() {
+        rep.inconclusive("worker_thread_ended_without_recorded_panic");
+    }
+}
+
+fn conservation_cfg(rng: &mut Rng) -> CellCfg {
+    CellCfg {
+        kind: "conservation",
+        max_connections: 1000,
+        max_buffers: if rng.chance(1, 4) { rng.range(6, 24) } else { 1000 },
+        front_timeout: rng.range(1, 2) as u32,
+        back_timeout: rng.range(1, 2) as u32,
+        request_timeout: rng.range(1, 2) as u32,
+        connect_timeout: 1,
+        accept_queue_timeout: 5,
+        evict: false,
+        per_ip: 0,
+        cluster_a_per_ip: None,
+        tcp_per_ip: None,
+        front_sndbuf: if rng.chance(1, 3) { Some(4096) } else { None },
+    }
+}
+
+/// run one mix + oracles A and D on `cell`; returns false when the cell must be abandoned
+fn one_mix(cc: &mut CaseCtx, cell: &mut Cell, plan: &MixPlan, mix_id: u64, rep: &mut Report) -> (bool, bool) {
+    let _gate = if cc.isolated { None } else { Some(GATE.read().unwrap_or_else(|e| e.into_inner())) };
+    let Some(base) = cell.baseline() else {
+        if cell.w.is_running() {
+            rep.inconclusive("no_stable_baseline");
+        }
+        return (false, false);
+    };
+    let class = plan.class_name();
+    let detail = json!({"mix": mix_id, "plan": plan.json()});
+    let mix_start = Instant::now();
+    let mut stats = run_mix(&cell.env, plan, cc.ctx.seed, cc.case * 1000 + mix_id);
+    rep.obs("mixes", 1);
+    rep.obs_max("mix_wall_ms", stats.wall_ms);
+    if stats.wall_ms > 6000 {
+        rep.obs_max(&format!("slow_mix_wall_ms:{class}"), stats.wall_ms);
+    }
+    let mut sessions = 0;
+    for ((cl, tag), n) in &stats.tags {
+        if cl.starts_with("h2_") {
+            rep.obs("h2_sessions", *n);
+        }
+        rep.obs(&format!("sessions:{cl}"), *n);
+        rep.obs(&format!("result:{tag}"), *n);
+        sessions += n;
+    }
+    rep.obs("sessions_total", sessions);
+    let fp = format!("{}|{:?}", class, stats.tags.keys().map(|(c, t)| format!("{c}:{t}")).collect::<Vec<_>>());
+    rep.case_bytes(fp.as_bytes(), sessions > 0);
+
+    // Oracle D: sessions the clients left idle / stuck (client sockets still open)
+    if plan.has_timeout() {
+        rep.obs("reclaim_checks", 1);
+        rep.obs_max("reclaim_ms_at_client", stats.reclaim_max_ms);
+        // the clients waited (up to the bound) for sozu to answer / close; the worker's own
+        // bookkeeping gets the same bound, counted from the start of the mix
+        let hook_deadline = (mix_start + Duration::from_millis(cell.env.reclaim_bound_ms)).max(Instant::now() + Duration::from_millis(500));
+        let mut gone = false;
+        while Instant::now() < hook_deadline {
+            match cell.fresh_snapshot() {
+                Some(s) if s.nb_connections == base.nb_connections => {
+                    gone = true;
+                    break;
+                }
+                Some(_) => std::thread::sleep(Duration::from_millis(20)),
+                None => break,
+            }
+        }
+        rep.obs_max("reclaim_ms_by_hook", mix_start.elapsed().as_millis() as u64);
+        if gone && stats.reclaim_missed.is_empty() {
+            rep.obs("reclaim_in_time", 1);
+        } else if cell.w.is_running() {
+            let nb = cell.w.probe.snapshot().nb_connections;
+            cc.candidates.push(Candidate {
+                signature: format!("resources/not_reclaimed/{class}"),
+                what: format!(
+                    "{} idle/stuck session(s) still alive after {} ms (sum of front/back/request/connect/h2-stream-idle timeouts + 2.5 s slack); nb_connections={nb}",
+                    stats.reclaim_missed.len().max(nb),
+                    cell.env.reclaim_bound_ms
+                ),
+                witness: cc.witness(cell, json!({"mix": detail, "missed_at_client": stats.reclaim_missed.iter().map(|(c, t)| format!("{c}:{t}")).collect::<Vec<_>>(),
+                    "nb_connections_with_clients_still_connected": nb, "bound_ms": cell.env.reclaim_bound_ms})),
+            });
+        }
+    }
+    // close every harness socket
+    stats.kept.clear();
+    check_conservation(cc, cell, &base, &class, detail, rep)
+}
+
+fn conservation_cell(cc: &mut CaseCtx, rep: &mut Report) {
+    let mut rng = Rng::for_case(cc.ctx.seed, S_CELL, cc.case);
+    let cfg = conservation_cfg(&mut rng);
+    let mut cell = match Cell::start(cfg) {
+        Ok(c) => c,
+        Err(e) => {
+            rep.inconclusive(&format!("cell_start_failed: {e}"));
+            return;
+        }
+    };
+    let quick = cc.ctx.tier == crate::common::Tier::Quick;
+    let mixes = cc.ctx.opt_u64("mixes", 6);
+    let only = cc.ctx.opt("class").map(|s| s.to_owned());
+    for m in 0..mixes {
+        if time_up(cc.ctx) && !cc.isolated {
+            break;
+        }
+        if cc.skip_unit(m) {
+            continue;
+        }
+        let mut mrng = Rng::for_case(cc.ctx.seed, S_MIX, cc.case * 1000 + m);
+        let plan = gen_plan(&mut mrng, only.as_deref(), quick);
+        let blended = plan.parts.len() > 1;
+        let mut scratch = rep.fork();
+        let (ok, violated) = one_mix(cc, &mut cell, &plan, m, if blended { &mut scratch } else { &mut *rep });
+        cc.close_unit(m);
+        if blended {
+            let held_back = std::mem::take(&mut scratch.violations);
+            scratch.observed.retain(|k, _| !k.starts_with("violation:"));
+            rep.merge(scratch);
+            if violated && !cc.isolated {
+                // attribute a blended mix: run each of its classes alone on a fresh worker; the
+                // blend itself is only reported when no single class reproduces a violation
+                rep.obs("blended_mix_bisections", 1);
+                finish_cell(cc, cell, rep);
+                let mut attributed = false;
+                let mut parts = plan.parts.clone();
+                parts.sort();
+                parts.dedup();
+                for (k, part) in parts.iter().enumerate() {
+                    let single = MixPlan { parts: vec![*part], sessions: plan.sessions, par: plan.par };
+                    if let Ok(mut c2) = Cell::start(conservation_cfg(&mut Rng::for_case(cc.ctx.seed, S_CELL, cc.case))) {
+                        attributed |= one_mix(cc, &mut c2, &single, m * 10 + k as u64 + 100, rep).1;
+                        finish_cell(cc, c2, rep);
+                    }
+                }
+                if attributed {
+                    rep.obs("blended_mix_violations_attributed_to_a_class", 1);
+                } else {
+                    for v in held_back {
+                        rep.violation(&v.signature, &v.what, v.witness);
+                    }
+                }
+                return;
+            }
+            for v in held_back {
+                rep.violation(&v.signature, &v.what, v.witness);
+            }
+        }
+        if !ok || !cc.candidates.is_empty() {
+            break;
+        }
+    }
+    finish_cell(cc, cell, rep);
+}
+
+/// stop starting new mixes / storms at 70 % of the budget (what runs then still has to settle)
+pub fn time_up(ctx: &Ctx) -> bool {
+    ctx.started.elapsed() > ctx.budget.mul_f32(0.7)
+}
+
+fn kind_of(case: u64, ctx: &Ctx) -> &'static str {
+    match ctx.opt("kind") {
+        Some("conservation") => "conservation",
+        Some("admission") => "admission",
+        Some("perip") => "perip",
+        _ => match case % 16 {
+            0..=8 => "conservation",
+            9..=12 => "admission",
+            _ => "perip",
+        },
+    }
+}
+
+fn run_case_once(ctx: &Ctx, case: u64, only_units: Option<Vec<u64>>, rep: &mut Report) -> (Vec<Candidate>, Vec<u64>) {
+    let mut cc = CaseCtx { ctx, case, isolated: only_units.is_some(), candidates: Vec::new(), cand_units: Vec::new(), only_units };
+    match kind_of(case, ctx) {
+        "conservation" => conservation_cell(&mut cc, rep),
+        "admission" => admission::cell(&mut cc, rep),
+        _ => perip::cell(&mut cc, rep),
+    }
+    cc.close_unit(0);
+    (cc.candidates, cc.cand_units)
+}
+
+fn run_case(ctx: &Ctx, case: u64, rep: &mut Report) {
+    if time_up(ctx) && ctx.replay.is_none() {
+        rep.obs("cases_skipped_budget", 1);
+        return;
+    }
+    let (candidates, units) = run_case_once(ctx, case, None, rep);
+    if candidates.is_empty() {
+        return;
+    }
+    rep.obs("bounded_time_candidates", candidates.len() as u64);
+    // bounded-time verdicts: once more, alone (only the mixes / storms concerned). Isolation stops
+    // every other cell, so it is rationed: a signature that was already confirmed in this run is
+    // not re-confirmed, and at most RERUN_CAP isolated re-runs are made per run.
+    let mut todo = Vec::new();
+    let mut todo_units = Vec::new();
+    {
+        let mut st = RERUNS.lock().unwrap_or_else(|e| e.into_inner());
+        for (c, u) in candidates.into_iter().zip(units) {
+            if st.confirmed.contains(&c.signature) {
+                rep.obs("bounded_time_candidates_of_already_confirmed_signature", 1);
+                continue;
+            }
+            if todo.iter().any(|t: &Candidate| t.signature == c.signature) {
+                continue;
+            }
+            todo_units.push(u);
+            todo.push(c);
+        }
+        if todo.is_empty() {
+            return;
+        }
+        let cap = ctx.tier.pick(4, 40);
+        if st.runs >= cap || (time_up(ctx) && ctx.replay.is_none() && st.runs > 0) {
+            for c in todo {
+                rep.inconclusive(&format!("bounded_time_miss_not_rerun_isolation_budget_spent:{}", c.signature));
+            }
+            return;
+        }
+        st.runs += 1;
+    }
+    let _w = GATE.write().unwrap_or_else(|e| e.into_inner());
+    rep.obs("isolated_reruns", 1);
+    let mut scratch = rep.fork();
+    todo_units.sort_unstable();
+    todo_units.dedup();
+    let (again, _) = run_case_once(ctx, case, Some(todo_units), &mut scratch);
+    for v in scratch.violations {
+        // exact (not time-bounded) violations seen only by the isolated re-run still count
+        rep.violation(&v.signature, &v.what, v.witness);
+    }
+    for c in todo {
+        if let Some(r) = again.iter().find(|a| a.signature == c.signature) {
+            RERUNS.lock().unwrap_or_else(|e| e.into_inner()).confirmed.insert(c.signature.clone());
+            rep.violation(&c.signature, &c.what, json!({"case": case, "seed": ctx.seed, "first_run": c.witness, "isolated_rerun": r.witness}));
+        } else {
+            rep.inconclusive(&format!("bounded_time_miss_not_reproduced_in_isolation:{}", c.signature));
+        }
+    }
+}
+
+#[derive(Default)]
+struct Reruns {
+    runs: u64,
+    confirmed: std::collections::BTreeSet<String>,
+}
+
+static RERUNS: std::sync::LazyLock<Mutex<Reruns>> = std::sync::LazyLock::new(|| Mutex::new(Reruns::default()));
+
+pub fn run(ctx: &Ctx) -> Report {
+    lab::raise_fd_limit();
+    let mut rep = Report::new(
+        "exploration",
+        "case n = one worker cell generated from (seed, n): conservation cell (6 mixes of 6-160 scripted sessions, one outcome class per mix or a blend of 3-5), \
+         admission cell (storms of 2-5x max_connections parked clients) or per-IP cell (scripted limit scenarios); an evaluation is one mix / storm / scenario; \
+         distinct = distinct (outcome class, observed result set) shapes",
+    );
+    rep.assume("a session the client has left is allowed to linger until the sum of its configured timeouts + 2.5 s; only then is a non-idle footprint suspicious, and it is reported as a leak only if it persists 5 s longer (or at once when no session object is left that a timer could still end)");
+    rep.assume("after SetMaxConnectionsPerIp(0) followed by a re-enable, connections admitted while the limit was off are not required to count (docs are silent): exempt");
+    for k in [
+        "sessions_total",
+        "mixes",
+        "conservation_checks",
+        "conservation_clean",
+        "metrics_comparisons",
+        "reclaim_checks",
+        "reclaim_in_time",
+        "storms",
+        "storms_saturated",
+        "storm_excess_refused_or_queued",
+        "accept_resume_probes_served",
+        "per_ip_scenarios",
+        "per_ip_rejections_429",
+        "per_ip_tcp_rejections",
+        "per_ip_keepalive_single_slot_checks",
+        "result:status_200",
+        "result:status_408",
+        "result:status_504",
+        "result:status_503",
+        "result:ws_upgraded",
+        "result:tcp_relayed",
+        "result:tls_handshake_failed",
+        "result:h2_streams_completed",
+        "result:h2_rst_stream_then_completed",
+        "result:h2_dropped_with_open_streams",
+        "per_ip_h2_single_slot_checks",
+        "sozu_wouldblock",
+        "cells_finished",
+    ] {
+        rep.require(k);
+    }
+    if let Some(path) = &ctx.replay {
+        let v: Value = serde_json::from_str(&std::fs::read_to_string(path).unwrap_or_default()).unwrap_or(Value::Null);
+        let seed = v["seed"].as_u64().unwrap_or(ctx.seed);
+        let mut c2 = ctx.clone();
+        c2.seed = seed;
+        let mut cases: Vec<u64> = Vec::new();
+        for w in v["witnesses"].as_array().cloned().unwrap_or_default() {
+            for c in [&w["case"], &w["first_run"]["case"]] {
+                if let Some(n) = c.as_u64() {
+                    if !cases.contains(&n) {
+                        cases.push(n);
+                    }
+                }
+            }
+        }
+        rep.required.clear();
+        for c in cases {
+            run_case(&c2, c, &mut rep);
+        }
+        return rep;
+    }
+    let n = ctx.opt_u64("cases", ctx.tier.pick(128, 2560));
+    let first = ctx.opt_u64("first", 0);
+    par_cases(ctx, &mut rep, n, |i, r| run_case(ctx, first + i, r));
     rep
 }
